@@ -36,7 +36,7 @@ REQUIRED = {
     "ref/cell_barycenter": 900, "ref/total_area": 60, "ref/mean_edge_length": 230, "ref/mean_face_area": 200,
     "ref/mean_cell_volume": 50, "ref/barycenter": 80, "ref/euler_characteristic": 60,
     "identity/triangle_angle_sum": 900, "identity/defect_sum_2pi_chi": 70, "identity/interp_constant": 30000,
-    "rigid": 25000, "rigid/face_normals": 1000, "rigid/vertex_normals:area": 800, "rigid/face_circumcenter": 1300, "rigid/cell_volume": 200,
+    "rigid": 25000, "rigid/face_normals": 1000, "rigid/vertex_normals:area": 800, "rigid/cell_volume": 200,
     "scale": 25000, "scale/edge_length": 2400, "scale/face_area": 1700, "scale/cotangent": 2000, "scale/cell_volume": 200,
     "options/persistent_dense_agree": 3000, "options/attributes_left_behind": 8000,
     "history": 30000, "history/cotangent": 2500, "history/cotan_weights": 1600, "history/angle_defects": 600,
@@ -106,7 +106,7 @@ def cases(seed, tier):
     if tier == "quick":
         n_tri, n_poly, n_tet, sizes = 100, 80, 50, [2, 3, 4, 5]
     else:
-        n_tri, n_poly, n_tet, sizes = 5000, 4000, 2500, [3, 4, 6, 8, 10, 12]
+        n_tri, n_poly, n_tet, sizes = 3000, 2400, 1600, [3, 4, 6, 8, 10, 12]
     vrows = ["list", "tuple", "nprow", "vec"]
     irows = ["list", "tuple", "npint"]
     k = 0
@@ -290,6 +290,13 @@ def read_values(ctx, site, attr, n, dim):
     return arr[:, 0] if dim == 1 else arr
 
 
+def _failed(ctx):
+    """(monitor, op) pairs whose comparison failed in this case (kept on the ctx object, not in the serialised record)."""
+    if not hasattr(ctx, "_c07_failed"):
+        ctx._c07_failed = set()
+    return ctx._c07_failed
+
+
 def classify(got, exp, bad, judged):
     """Stable description of a disagreement pattern (computed from the values, no random content)."""
     if not np.all(np.isfinite(got[bad])):
@@ -338,6 +345,7 @@ def compare(ctx, monitor, op, got, exp, tol, judged=None, what="", **wit):
         return True
     ctx.obs(monitor, op, nj)
     if got.shape != exp.shape:
+        _failed(ctx).add((monitor, op))
         ctx.violation(monitor, op, "shape_mismatch", "%s: %s values for %s elements" % (op, got.shape, exp.shape))
         return False
     err = np.abs(got - exp)
@@ -347,6 +355,7 @@ def compare(ctx, monitor, op, got, exp, tol, judged=None, what="", **wit):
         bad = judged & ~(err <= tol)
     if not bad.any():
         return True
+    _failed(ctx).add((monitor, op))
     mech = classify(got, exp, bad, judged)
     i = int(np.argmax(np.where(bad, np.nan_to_num(err / (tol + 1e-300), nan=1e300, posinf=1e300), -1)))
     ctx.violation(monitor, op, mech, "%s: %d of %d judged values disagree%s" % (op, int(np.sum(bad)), nj, (" (" + what + ")") if what else ""),
@@ -514,6 +523,8 @@ def judge_circumcentres(ctx, monitor, op, arr, tris, maxabs, K):
             worst_eq = (spread / tol, i, spread, tol, off)
         if off > tol and (worst_pl is None or off / tol > worst_pl[0]):
             worst_pl = (off / tol, i, off, tol, spread)
+    if worst_pl is not None or worst_eq is not None:
+        _failed(ctx).add((monitor, op))
     if worst_pl is not None:
         _, i, off, tol, spread = worst_pl
         mech = "point_off_the_triangle_plane" + ("_but_equidistant" if spread <= tol else "")
@@ -881,17 +892,28 @@ def metamorphic(ctx, monitor, env, envB, funcs, R, base, rng, maps, Q, t, s, tol
             a = base.get(key)
             if a is None:
                 continue
+            if ("ref", key) in _failed(ctx):
+                # the values of the original are already reported as wrong: a relation between wrong values says nothing new
+                ctx.note("metamorphic_not_judged(original_values_already_flagged):" + key)
+                continue
             container = spec[0]
             b = call_quantity(ctx, envB, fn, spec, rng.random() < 0.5, rng.random() < 0.5, None, extras, check_left=False)
             if b is None:
                 continue
+            jd = judgeable(fn, extras)
             idx = maps.get(container)
             if idx is None or len(idx) != len(a) or np.any(idx < 0):
                 ctx.note("metamorphic_map_missing:" + container)
                 continue
+            if fn == "face_circumcenter":
+                # the circumcentre is fixed by two facts (equidistant, in the plane); holding on the original (ref monitor) and on
+                # the copy they imply equivariance, and a failure names which fact broke on the moved / scaled copy
+                if jd is None or bool(np.all(jd)):
+                    Kc = 1.0 / max(math.sin(min(R.tri_min_angle, math.pi / 2)), 0.05)
+                    judge_circumcentres(ctx, monitor, key, b, [envB.V[f] for f in envB.FL], float(np.max(np.abs(envB.V))), Kc)
+                continue
             bb = b[idx]          # bb[i] = value on the copy of the element that is element i of the original
             kind = KIND[fn]
-            jd = judgeable(fn, extras)
             if kind == "unit":
                 exp = a @ Q.T
                 tol = tolm * 10
